@@ -46,16 +46,19 @@ def find_seeds(root):
     return sorted(out)
 
 
+PREFIX = ""
+
+
 def seed_id(d, root):
     rel = os.path.relpath(d, root)
-    return rel.replace(os.sep, "-")
+    return PREFIX + rel.replace(os.sep, "-")
 
 
 def prop_of(d, root):
     mp = os.path.join(d, "meta.json")
     if os.path.exists(mp):
         return json.load(open(mp)).get("property")
-    return os.path.relpath(d, root).split(os.sep)[0]
+    return os.path.relpath(d, root).split(os.sep)[0].split("-")[-1] if os.sep not in os.path.relpath(d, root) else os.path.relpath(d, root).split(os.sep)[0]
 
 
 def evaluate(d, root, tier, props, do_import):
@@ -147,11 +150,14 @@ def main():
     tier = "quick"
     jobs = 8
     do_import = "--import" in argv
+    global PREFIX
+    if "--prefix" in argv:
+        PREFIX = argv[argv.index("--prefix") + 1]
     if "--tier" in argv:
         tier = argv[argv.index("--tier") + 1]
     if "--jobs" in argv:
         jobs = int(argv[argv.index("--jobs") + 1])
-    args = [a for i, a in enumerate(argv) if not a.startswith("--") and (i == 0 or argv[i - 1] not in ("--tier", "--jobs"))]
+    args = [a for i, a in enumerate(argv) if not a.startswith("--") and (i == 0 or argv[i - 1] not in ("--tier", "--jobs", "--prefix"))]
     root = os.path.abspath(args[0])
     flt = args[1] if len(args) > 1 else ""
     props = claimed()
